@@ -140,6 +140,8 @@ type FuncContract struct {
 	Loops       []*LoopAnn
 	Calls       []*CallAnn
 	Flags       map[string]bool
+	UsesHide    map[string][]string // postcondition label -> opaque predicates kept opaque while proving it
+	Uses        map[string][]string // postcondition label -> labels of postconditions assumed while proving it
 	Dispatch    map[string][]string // interface type key -> allowed dynamic types
 	Cases       []Clause            // case split on entry values: every obligation is discharged per case
 	Reveal      map[string]bool     // opaque predicates whose definition is visible while verifying this function
@@ -644,7 +646,7 @@ func parseExprString(s string) (e Expr, err error) {
 
 var topKeywords = map[string]bool{"opaque": true, "deterministic": true, "func": true, "ghost": true, "ufunc": true, "pure": true, "pred": true, "axiom": true, "lemma": true, "type": true, "extern": true}
 var clauseKeywords = map[string]bool{"unfold": true, "owns": true, "reveal": true, "cases": true, "dispatch": true, "requires": true, "ensures": true, "modifies": true, "serves": true, "loop": true, "invariant": true,
-	"at": true, "after": true, "assert": true, "assume": true, "flag": true, "set": true}
+	"at": true, "after": true, "assert": true, "assume": true, "flag": true, "set": true, "uses": true}
 
 type rawLine struct {
 	text string
@@ -1028,6 +1030,36 @@ func readSpecFile(path string, isSpec bool) (*SpecFile, error) {
 				for _, t := range strings.Split(rest[i+1:], ",") {
 					cur.Dispatch[iface] = append(cur.Dispatch[iface], strings.TrimSpace(t))
 				}
+			case "uses":
+				// uses a b c for x: postcondition x is proved last, with postconditions a, b, c (proved on their own) assumed
+				f := strings.Fields(rest)
+				var hide []string
+				for i, w := range f {
+					if w == "hiding" {
+						hide = append(hide, f[i+1:]...)
+						f = f[:i]
+						break
+					}
+				}
+				k := -1
+				for i, w := range f {
+					if w == "for" {
+						k = i
+					}
+				}
+				if cur.UsesHide == nil {
+					cur.UsesHide = map[string][]string{}
+				}
+				if k >= 1 && k == len(f)-2 {
+					cur.UsesHide[f[k+1]] = hide
+				}
+				if k < 1 || k != len(f)-2 {
+					return nil, perr(g, fmt.Errorf("uses: expected 'uses <labels> for <label>'"))
+				}
+				if cur.Uses == nil {
+					cur.Uses = map[string][]string{}
+				}
+				cur.Uses[f[k+1]] = append(cur.Uses[f[k+1]], f[:k]...)
 			case "flag":
 				if cur.Flags == nil {
 					cur.Flags = map[string]bool{}
